@@ -101,6 +101,47 @@ def run(ctx):
             cases.append(('amt_fmt %d %d %d' % (n, e, decimals), num, True))
             ctx.count('denominator:' + (sym or 'unit'))
     ctx.compare(cases, 'format', trigger_findings=trig)
+
+    # ---- amount strings with a denominator symbol: '<decimal> <symbol><currency code>' must be the exact amount ----------------
+    from bitcoinlib.values import value_to_satoshi
+    bad = 0
+    for net in ('bitcoin', 'litecoin', 'dogecoin', 'testnet'):
+        nw = Network(net)
+        code = nw.currency_code
+        for den, sym in dens:
+            fden = Fraction(str(den)) if den < 1 else Fraction(int(den))
+            for _ in range(3 if not T else 12):
+                # a decimal whose value in satoshi is an integer (nothing to round)
+                unit_sat = fden / Fraction(str(nw.denominator))          # satoshi per one <symbol><code>
+                qmax = Fraction(21 * 10 ** 14) / unit_sat                     # the total supply in this unit
+                if unit_sat >= 1:
+                    ndec = min(rng.choice([0, 1, 2, 4]), len(str(int(unit_sat))) - 1)
+                    top = int(min(qmax, 10 ** 6) * 10 ** ndec)
+                    if top < 1:
+                        continue
+                    q = Fraction(rng.randrange(1, top + 1), 10 ** ndec)
+                else:
+                    per = int(1 / unit_sat)                                      # this many units make one satoshi
+                    q = Fraction(rng.randrange(1, 10 ** 6) * per)
+                want = q * unit_sat
+                if want.denominator != 1 or want > 21 * 10 ** 14:
+                    continue
+                txt = ('%d' % q) if q.denominator == 1 else ('%.*f' % (len(str(q.denominator)) - 1, float(q)))
+                if Fraction(txt) != q:
+                    continue
+                amount = '%s %s%s' % (txt, sym, code)
+                ctx.evals += 1
+                ctx.count('parse-with-symbol:' + (sym or 'unit'))
+                ctx.nontrivial.add(hash(amount))
+                try:
+                    got = value_to_satoshi(amount, network=nw)
+                except Exception as ex:
+                    got = 'raise:%s' % type(ex).__name__
+                if got != int(want):
+                    bad += 1
+                    if bad <= 5:
+                        ctx.violation('an amount string with a denominator symbol is not parsed to the exact amount',
+                                      {'op': 'parse_symbol', 'amount': amount, 'network': net, 'observed': got, 'expected_satoshi': int(want)})
     ctx.exhaustive = False
     ctx.assumptions += ['IEEE-754 binary64 round-to-nearest-even and CPython\'s correctly rounded float(str), round(), %.Nf are modelled exactly on rationals; '
                         'the model is validated against CPython on every run',
